@@ -336,6 +336,31 @@ def check_hoist_quantifier(model, rep):
         raise AnalysisError('no quantified loop-index independence test guards a rewrite any more (LoopSum._simplified expected)')
 
 
+EMPTY_IS_ONE = {'_product': 'the product over an empty axis is 1', '_determinant': 'the determinant of a 0x0 matrix is 1'}
+
+
+def check_zeros_shortcuts(model, rep, rule='R01.9'):
+    """R01.9: Zeros is absorbing for sums, products with other arrays, selections and rearrangements - but a reduction whose neutral
+    element is 1 gives 1, not 0, over an EMPTY axis.  A simplification hook of Zeros for such a reduction (_product, _determinant) must
+    decide the empty case (a test that the reduced length is zero, returning ones) before it answers Zeros; `Product(Zeros((n, 0)))` is
+    ones((n,)), which is what numpy.prod / numpy.all on an empty axis return."""
+    z = model.cls('evaluable:Zeros')
+    n = 0
+    for name, why in EMPTY_IS_ONE.items():
+        mem = z.members.get(name)
+        if mem is None or mem.func is None:
+            continue
+        n += 1
+        f = mem.func
+        empties = [g for g in ast.walk(f.node) if isinstance(g, ast.If) and any(isinstance(c, ast.Call) and src(c.func) in ('iszero', 'isunit', '_certainly_equal') for c in ast.walk(g.test)) or
+                   isinstance(g, ast.If) and ('== 0' in src(g.test) or '_intbounds' in src(g.test))]
+        ones_ret = any(isinstance(r, ast.Return) and r.value is not None and ('ones(' in src(r.value) or 'Ones(' in src(r.value)) for r in ast.walk(f.node))
+        ok = bool(empties) and ones_ret
+        rep.ob(rule, f.key, f.where(), ok, f'Zeros.{name} answers ones for an empty axis, zeros otherwise' if ok else
+               f'Zeros.{name} answers Zeros for every shape, but {why}: the simplified expression is 0 where the unsimplified one (and NumPy) give 1', statement=f'zeros-shortcut {name}')
+    rep.ob(rule, 'evaluable:Zeros', f'{z.module.relpath}:{z.node.lineno}', True, f'{n} reduction shortcuts of Zeros with a non-zero empty value inspected', statement='zeros-shortcuts-inspected')
+
+
 def run(model, rep, tier):
     rep.explanation = (
         'R01.1: the rewrite system is a double-dispatch protocol; the arities declared by the `_x = lambda self, ...: None` defaults in evaluable.Array (and by _simplified, _derivative, _compile_with_out, ...) are '
@@ -357,6 +382,8 @@ def run(model, rep, tier):
     advisory_priority(model, rep)
     check_decidable_guards(model, rep)
     check_certain_equality(model, rep)
+    rep.rule('R01.9', 'Zeros shortcuts of reductions with neutral element 1 (product, determinant) decide the empty axis first')
+    check_zeros_shortcuts(model, rep)
     check_hoist_quantifier(model, rep)
     from rules.c06 import check_transfer
     from rules.c03 import _Rename
